@@ -47,16 +47,22 @@ class _Buf:
         return c
 
 
-def _int_rvalue_patch(ex, buf):
-    """AddWithOverflow on symbolic integers: exact sum (the MIR asserts no overflow right after)"""
+def _int_rvalue_patch(ex, buf, flags=False):
+    """AddWithOverflow / SubWithOverflow on symbolic usize values: the exact integer result; with `flags` the overflow flag is the
+    real condition (sum >= 2^64, minuend < subtrahend), which the assertion that follows in the MIR then has to exclude"""
     orig = ex.rvalue
 
     def rvalue(env, rv):
-        m = re.match(r"^AddWithOverflow\((.+)\)$", rv.strip())
+        m = re.match(r"^(Add|Sub)WithOverflow\((.+)\)$", rv.strip())
         if m:
-            a, b = ex.split_args(m.group(1))
+            a, b = ex.split_args(m.group(2))
             va, vb = ex.operand(env, a), ex.operand(env, b)
-            return "(C_tuple2 %s (b2v false))" % buf.val("(+ (toint %s) (toint %s))" % (va, vb))
+            if m.group(1) == "Add":
+                s = "(+ (toint %s) (toint %s))" % (va, vb)
+                return "(C_tuple2 %s (b2v %s))" % (buf.val(s), ("(>= %s 18446744073709551616)" % s) if flags else "false")
+            if not flags:
+                return orig(env, rv)
+            return "(C_tuple2 %s (b2v (< (toint %s) (toint %s))))" % (buf.val("(- (toint %s) (toint %s))" % (va, vb)), va, vb)
         return orig(env, rv)
     ex.rvalue = rvalue
 
@@ -140,8 +146,12 @@ def q_c09_frame_decode(bodies):
         r" as FromResidual<.*>>::from_residual$": lambda ex, v: "(C_Err (conv %s))" % v[0],
         r"new_display::<|Arguments::<'_>::new::<|^format$|^must_use::<|anyhow::error::<impl anyhow::Error>::msg::<": lambda ex, v: "ERR",
     }
-    ex = Exec2(bodies, smt, models=models, int_ops=True, max_paths=400)
-    _int_rvalue_patch(ex, buf)
+    from stdmodels import AssertTracking
+
+    class DecExec(AssertTracking, Exec2):
+        pass
+    ex = DecExec(bodies, smt, models=models, int_ops=True, max_paths=400)
+    _int_rvalue_patch(ex, buf, flags=True)
     kmax = ex._konst("net__codec__MAX_MESSAGE_SIZE")
     smt.asserts.append("(= (toint %s) %d)" % (kmax, mx))
     smt.asserts.append("(>= L 0)")
@@ -173,6 +183,20 @@ def q_c09_frame_decode(bodies):
             nq += 1
             v2, _ = solve(smt.script("(and %s (not %s))" % (pcs, formula)))
             return v2
+
+        # no arithmetic assertion (overflow, underflow) and no index check can fail, whatever is buffered
+        if ret == "PANIC" or env.get("__panic"):
+            problems.append(("decode never panics, whatever bytes are buffered (no index out of range, no arithmetic overflow)", "sat", tag + " %s" % (env.get("__panic"),)))
+            continue
+        bad_assert = False
+        for cond, msg_ in env.get("__asserts", ()):
+            v = implied(cond)
+            if v != "unsat":
+                problems.append(("decode never panics, whatever bytes are buffered (no index out of range, no arithmetic overflow)", v, tag + " assertion: " + msg_))
+                bad_assert = True
+                break
+        if bad_assert:
+            continue
 
         if ret == "(C_Ok C_None)":
             if consumed:
@@ -298,8 +322,12 @@ def q_c09_frame_encode(bodies):
         r" as FromResidual<.*>>::from_residual$": lambda ex, v: "(C_Err (conv %s))" % v[0],
         r"new_display::<|Arguments::<'_>::new::<|^format$|^must_use::<|anyhow::error::<impl anyhow::Error>::msg::<": lambda ex, v: "ERR",
     }
-    ex = Exec2(bodies, smt, models=models, int_ops=True, max_paths=400)
-    _int_rvalue_patch(ex, buf)
+    from stdmodels import AssertTracking
+
+    class DecExec(AssertTracking, Exec2):
+        pass
+    ex = DecExec(bodies, smt, models=models, int_ops=True, max_paths=400)
+    _int_rvalue_patch(ex, buf, flags=True)
     kmax = ex._konst("net__codec__MAX_MESSAGE_SIZE")
     smt.asserts.append("(= (toint %s) %d)" % (kmax, mx))
     smt.asserts.append("(>= L0 0)")
